@@ -68,7 +68,7 @@ def judge(prog: primgen.Program, version: int, counters: Dict[str, Any]) -> List
     if model.impossible:
         counters['impossible_layouts'] = counters.get('impossible_layouts', 0) + 1
         if status == 'ok':
-            return [(f'impossible-layout-assembled/{model.impossible[0]}', f'layout is impossible ({model.impossible}) but the program assembled')]
+            return [(f'impossible-layout-assembled/{model.impossible[0].split(":")[0]}', f'layout is impossible ({model.impossible}) but the program assembled')]
         counters['impossible_rejected'] = counters.get('impossible_rejected', 0) + 1
         return []
     if status == 'rejected':
@@ -173,7 +173,7 @@ def run_shard(spec: Dict[str, Any], journal: Any) -> Dict[str, Any]:
     hashes: List[str] = []
     samples: List[Any] = []
     for index in range(spec['cases']):
-        prog = primgen.generate(rng)
+        prog = primgen.misaligned_layout(rng) if index % 12 == 7 else primgen.generate(rng)
         version = rng.randrange(4)
         journal.note({'text': prog.text(), 'w': prog.w, 'version': version})
         found = judge(prog, version, counters)
